@@ -254,7 +254,23 @@ template <class G> class Obj : public IObj {
             throw std::logic_error("unknown relocation " + how);
     }
 
+    // weights of the inexact regime; every other zero weight given to this object is NEGATIVE zero
+    // (equal to zero: equality, totals and matrices may not tell the two apart)
+    double encW(int a) {
+        static unsigned zeroFlip = 0;         // shared by all objects: two objects get different zeros
+        double w = (double)Lab<G>::enc(a, variant);
+        if (variant && w == 0 && (zeroFlip++ & 1))
+            w = -0.0;
+        return w;
+    }
     std::string apply(const json &c) override {
+        std::string out = applyInner(c);
+        // clearEdges() is a fresh start for the running total, whatever rounding residue it carried
+        if (out == "ok" && c.at("op") == "clearEdges")
+            sawHuge = false;
+        return out;
+    }
+    std::string applyInner(const json &c) {
         const std::string op = c.at("op");
         if (variant && c.contains("w") && c.at("w").get<int>() == 5)
             sawHuge = true;
@@ -352,9 +368,9 @@ template <class G> class Obj : public IObj {
                     throw std::logic_error("unknown op " + op);
             } else {
                 if (op == "addEdge")
-                    g.addEdge(I_(), J_(), Lab<G>::enc(c.at("w").get<int>(), variant), F_());
+                    g.addEdge(I_(), J_(), encW(c.at("w").get<int>()), F_());
                 else if (op == "setEdgeWeight")
-                    g.setEdgeWeight(I_(), J_(), Lab<G>::enc(c.at("w").get<int>(), variant));
+                    g.setEdgeWeight(I_(), J_(), encW(c.at("w").get<int>()));
                 else if (op == "getEdgeWeight")
                     (void)g.getEdgeWeight(I_(), J_());
                 else if (op == "addReciprocalEdge") {
